@@ -53,6 +53,9 @@ class Clf(BaseEstimator, ClassifierMixin):
         p = 1 / (1 + numpy.exp(-s / 50))
         return numpy.column_stack([1 - p, p])
 
+    def decision_function(self, X):
+        return numpy.asarray(X, dtype=float).sum(axis=1) - 20
+
 
 class Reg(BaseEstimator, RegressorMixin):
     def fit(self, X, y):
@@ -204,19 +207,20 @@ def scenario_for(cfg):
                 if tn["vs"] is not None:
                     C.true(list(gv) == list(tn["vs"]), "enumerate/columns-of-a-ColumnTransformer-branch", detail=(gv, tn["vs"]))
         # ---- pipeline2str
-        text = vz.pipeline2str(pipe, indent=3)
-        lines = text.split("\n")
-        C.true(len(lines) == len(got), "pipeline2str/one-line-per-model", detail=(len(lines), len(got)))
-        if len(lines) == len(got):
-            for ln, (gc, gm, gv) in zip(lines, got):
-                ind = len(ln) - len(ln.lstrip(" "))
-                C.true(ind == 3 * (len(gc) - 1) and ln.strip().startswith(type(gm).__name__), "pipeline2str/indentation=depth-and-class-name", detail=(ln, gc))
+        for width in (3, 2, 5):
+            text = vz.pipeline2str(pipe, indent=width)
+            lines = text.split("\n")
+            C.true(len(lines) == len(got), "pipeline2str/one-line-per-model", detail=(len(lines), len(got)))
+            if len(lines) == len(got):
+                for ln, (gc, gm, gv) in zip(lines, got):
+                    ind = len(ln) - len(ln.lstrip(" "))
+                    C.true(ind == width * (len(gc) - 1) and ln.strip().startswith(type(gm).__name__), "pipeline2str/indentation=indent*depth-and-class-name", detail=(width, ln, gc))
         # ---- fit on real data, then instrument
         X = pandas.DataFrame(dict(a=[1.0, 2.0, 3.0, 4.0], b=[0.5, 0.25, 4.0, 8.0], c=[10.0, 20.0, 30.0, 40.0]))
         y = numpy.array([0, 1, 0, 1])
         data = X if cfg["schema"] == "frame" else (X.values if cfg["schema"] == "ndarray" else X)
         pipe.fit(data, y)
-        methods = ["transform"] if final == 0 else (["predict", "predict_proba"] if final == 1 else ["predict"])
+        methods = ["transform"] if final == 0 else (["predict", "predict_proba", "decision_function"] if final == 1 else ["predict"])
         before = {m: getattr(pipe, m)(data) for m in methods}
         hp.alter_pipeline_for_debugging(pipe)
         for m in methods:
@@ -234,6 +238,9 @@ def scenario_for(cfg):
             else:
                 key = "transform"
             C.true(key in dbg.inputs and key in dbg.outputs, "debug/step-recorded-its-last-input-and-output", detail=(name, sorted(dbg.inputs)))
+            if i == len(pipe.steps) - 1:
+                for m in methods:  # every method called on the pipeline since the instrumentation
+                    C.true(m in dbg.inputs and m in dbg.outputs and numpy.array_equal(numpy.asarray(dbg.outputs[m]), numpy.asarray(before[m])), "debug/final-step-recorded-every-method-called", detail=(m, sorted(dbg.inputs)))
             if key not in dbg.inputs:
                 break
             if prev_out is not None:
